@@ -332,5 +332,203 @@ func c11Protocol(c *kc.Ctx, rng *kc.Rng) {
 			}
 		}
 	}
+	// honest resharing through the Protocol driver, every group shape, with and without fast-sync
+	for _, mock := range []bool{true, false} {
+		for n := 3; n <= 4; n++ {
+			t := n/2 + 1
+			for _, shape := range []string{"same", "overlap", "disjoint", "grow", "shrink"} {
+				newN := map[string]int{"same": n, "overlap": n, "disjoint": n, "grow": n + 1, "shrink": n - 1}[shape]
+				if newN < 3 {
+					continue
+				}
+				for _, fast := range []bool{false, true} {
+					if !mock && !c.Thorough() && shape != "grow" {
+						continue
+					}
+					c11ProtoReshare(c, mock, n, t, shape, newN/2+1, fast, rng.Fork(fmt.Sprint("PR", mock, n, shape, fast)))
+					scen++
+				}
+			}
+		}
+	}
 	c.Extra("scenarios_P_protocol_driver", scen)
+}
+
+// c11ProtoReshare: an all-honest resharing run through real Protocol objects (the goroutine-driven driver with
+// its phase transitions and, in fast-sync mode, its early transitions): group shapes same / overlap / disjoint /
+// grow / shrink on top of an honest fresh round. "When everyone is honest, everyone completes": every member
+// of the new group ends with a result, all results agree, contain every old dealer, and keep the public key.
+func c11ProtoReshare(c *kc.Ctx, mock bool, n, t int, shape string, newT int, fast bool, rng *kc.Rng) {
+	sp := &c11Spec{mock: mock, n: n, t: t, reshare: shape, newT: newT}
+	desc := fmt.Sprintf("protocol resharing mock=%v n=%d t=%d shape=%s newT=%d fast=%v", mock, n, t, shape, newT, fast)
+	viol := func(key, what string) {
+		c.Violation("protocol:"+key, what, map[string]any{"scenario": desc})
+	}
+	w := newDkgWorld(mock, rng.Fork("world"))
+	fr, err := c11FreshRound(c, w, sp, rng.Fork("fresh"))
+	if err != nil {
+		c.Unshown("harness:protocol-reshare", err.Error(), desc)
+		return
+	}
+	fr.run()
+	for _, x := range fr.nodes {
+		if x.result == nil {
+			c.Unshown("harness:protocol-reshare", "the fresh round did not complete", desc)
+			return
+		}
+	}
+	rr, err := c11ReshareRound(c, w, sp, fr, rng.Fork("reshare"))
+	if err != nil {
+		c.Unshown("harness:protocol-reshare", err.Error(), desc)
+		return
+	}
+	oldKey := fr.nodes[0].result.Key.Commits[0]
+	var mu sync.Mutex
+	var deals []*dkg.DealBundle
+	var resps []*dkg.ResponseBundle
+	var justs []*dkg.JustificationBundle
+	type rnode struct {
+		*pNode
+		inOld, inNew bool
+	}
+	var nodes []*rnode
+	nOld, nNew := 0, 0
+	for _, x := range rr.nodes {
+		nd := &rnode{pNode: &pNode{party: x.party, idx: x.nidx}, inOld: x.inOld, inNew: x.inNew}
+		nd.board = &pBoard{mu: &mu, deals: &deals, resps: &resps, justs: &justs,
+			inD: make(chan dkg.DealBundle), inR: make(chan dkg.ResponseBundle), inJ: make(chan dkg.JustificationBundle)}
+		nd.phaser = &pPhaser{ch: make(chan dkg.Phase)}
+		conf := *x.conf
+		conf.FastSync = fast
+		conf.Reader, conf.UserReaderOnly = nil, false
+		p, err := dkg.NewProtocol(&conf, nd.board, nd.phaser, false)
+		if err != nil {
+			c.Unshown("harness:protocol-reshare", err.Error(), desc)
+			return
+		}
+		nd.proto = p
+		nodes = append(nodes, nd)
+		if x.inOld {
+			nOld++
+		}
+		if x.inNew {
+			nNew++
+		}
+	}
+	phaseAll := func(p dkg.Phase) {
+		for _, nd := range nodes {
+			nd.phase(p)
+		}
+	}
+	deliver := func(nd *rnode, f func() bool) {
+		nd.poll()
+		if nd.done {
+			return
+		}
+		f()
+	}
+	phaseAll(dkg.DealPhase)
+	phaseAll(dkg.InitPhase) // barrier
+	mu.Lock()
+	ds := append([]*dkg.DealBundle{}, deals...)
+	mu.Unlock()
+	if len(ds) != nOld {
+		viol("reshare:deals-missing", fmt.Sprintf("%d of %d deal bundles were pushed", len(ds), nOld))
+		return
+	}
+	for _, nd := range nodes {
+		nd := nd
+		for _, k := range rngPerm(rng, len(ds)) {
+			b := ds[k]
+			deliver(nd, func() bool {
+				select {
+				case nd.board.inD <- *copyDealBundle(b):
+				case r := <-nd.proto.WaitEnd():
+					nd.done, nd.res = true, &r
+				case <-time.After(pSendTimeout):
+				}
+				return true
+			})
+		}
+	}
+	phaseAll(dkg.ResponsePhase)
+	phaseAll(dkg.InitPhase)
+	mu.Lock()
+	rs := append([]*dkg.ResponseBundle{}, resps...)
+	mu.Unlock()
+	for _, nd := range nodes {
+		nd := nd
+		for _, k := range rngPerm(rng, len(rs)) {
+			b := rs[k]
+			deliver(nd, func() bool {
+				select {
+				case nd.board.inR <- *copyRespBundle(b):
+				case r := <-nd.proto.WaitEnd():
+					nd.done, nd.res = true, &r
+				case <-time.After(pSendTimeout):
+				}
+				return true
+			})
+		}
+	}
+	phaseAll(dkg.JustifPhase)
+	phaseAll(dkg.InitPhase)
+	mu.Lock()
+	js := append([]*dkg.JustificationBundle{}, justs...)
+	mu.Unlock()
+	for _, nd := range nodes {
+		nd := nd
+		for _, k := range rngPerm(rng, len(js)) {
+			b := js[k]
+			deliver(nd, func() bool {
+				select {
+				case nd.board.inJ <- *copyJustBundle(b):
+				case r := <-nd.proto.WaitEnd():
+					nd.done, nd.res = true, &r
+				case <-time.After(pSendTimeout):
+				}
+				return true
+			})
+		}
+	}
+	phaseAll(dkg.FinishPhase)
+	c.CountKind(fmt.Sprintf("protocol:reshare:%s:fast=%v", shape, fast))
+	c.Nontrivial(desc + fmt.Sprint(rng.U64()))
+	var ref *dkg.Result
+	for _, nd := range nodes {
+		if !nd.done {
+			select {
+			case r := <-nd.proto.WaitEnd():
+				nd.done, nd.res = true, &r
+			case <-time.After(pSendTimeout):
+			}
+		}
+		c.Eval(1)
+		if !nd.inNew {
+			continue
+		}
+		if nd.res == nil || nd.res.Result == nil {
+			e := "no result"
+			if nd.res != nil && nd.res.Error != nil {
+				e = nd.res.Error.Error()
+			}
+			viol("reshare:honest-run-incomplete", fmt.Sprintf("everybody is honest; member %d of the new group: %s", nd.idx, e))
+			return
+		}
+		r := nd.res.Result
+		if len(r.QUAL) != nNew {
+			viol("reshare:qual-size", fmt.Sprintf("everybody is honest; member %d of the new group ends with %d of %d qualified members", nd.idx, len(r.QUAL), nNew))
+			return
+		}
+		if !r.Key.Commits[0].Equal(oldKey) {
+			viol("reshare:key-changed", fmt.Sprintf("member %d: the public key after resharing differs from the key before", nd.idx))
+			return
+		}
+		if ref == nil {
+			ref = r
+		} else if !ref.PublicEqual(r) {
+			viol("reshare:agreement", fmt.Sprintf("member %d outputs another public polynomial than the first member", nd.idx))
+			return
+		}
+	}
 }
